@@ -144,7 +144,55 @@ def post_system_new(ev, args, kwargs, ret, exc, pre_, depth):
     return None if exc is not None else {'sys': ob.oid(args[0]), 'obj': ob.oid(args[0]), 'rank': int(args[0].rank)}
 
 
+def _rel(n, m):
+    return 'equal' if n == m else ('one' if n == 1 else ('shorter' if n < m else 'longer'))
+
+
+def _krel(kk, k):
+    """relation of a k column to the grid it is evaluated on (common prefix if the lengths differ)"""
+    m = min(len(kk), len(k))
+    a, b = np.asarray(kk[:m], dtype=float), np.asarray(k[:m], dtype=float)
+    if np.array_equal(a, b):
+        return 'exact'
+    if np.allclose(a, b):
+        return 'within'
+    return 'beyond'
+
+
+def post_omega(ev, args, kwargs, ret, exc, pre_, depth):
+    """FromArray.calculate / FromFile.calculate: description of the source relative to the k it met"""
+    self, k = args[0], np.asarray(args[1])
+    if ev == 'omega.fromarray':
+        data = np.asarray(self.value)
+        kk = getattr(self, 'k', None)
+        origin = 'array' if kk is None else 'arrayk'
+    else:
+        try:
+            tab = np.loadtxt(self.fileName, ndmin=2)
+        except Exception:
+            return None
+        if tab.shape[1] >= 2:
+            origin, kk, data = 'file2', tab[:, 0], tab[:, 1]
+        else:
+            origin, kk, data = 'file1', None, tab[:, 0]
+    n = int(np.asarray(data).shape[0]) if np.ndim(data) else 1
+    r = {'obj': ob.oid(self), 'origin': origin, 'lenrel': _rel(n, int(k.shape[0])), 'points': n, 'grid': int(k.shape[0])}
+    if kk is None:
+        r['krel'] = 'none'
+    else:
+        r['krel'] = _krel(kk, k)
+        if r['lenrel'] != 'equal' and r['krel'] != 'exact':
+            r['krel'] = 'exact'         # only the number of points is described when it differs
+    r['verbatim'] = 0
+    if exc is None and ret is not None:
+        got = np.asarray(ret)
+        r['verbatim'] = 1 if (got.shape == np.asarray(data).shape and np.array_equal(got, data)) else 0
+    return r
+
+
 def register(pre, post):
+    post['omega.fromarray'] = post_omega
+    post['omega.fromfile'] = post_omega
     for e in ('system.check', 'system.createPRISM', 'system.solve'):
         pre[e] = pre_system
         post[e] = post_system
